@@ -579,7 +579,7 @@ class Cli:
                         if damaged:
                             # a storage fault hit this file: judged like any other input
                             c2, o2, e2, x2 = self.run(["check"] + self.spec_args + iargs, op_index)
-                            self.judge_check(c2, o2, text, ipath, op_index, "check")
+                            self.judge_check(c2, o2 + " | stderr: " + e2[-200:], text, ipath, op_index, "check")
                             continue
                 c2, o2, e2, x2 = self.run(["check"] + self.spec_args + iargs, op_index)
                 if c2 is not None and c2 != 0 and not self.z3_trouble_since(0):
@@ -650,7 +650,7 @@ class Cli:
             if self.z3_trouble_since(0) and code == 1:
                 self.bump("check_reject_under_z3_trouble")
                 return
-            self.v(f"{what}_exit_code", f"isla {what} exited {code} ({out.strip()[:60]!r}), expected {sorted(exp)} for input {contents[0][:100]!r}; constraints {self.plan['formula_texts']}", op_index)
+            self.v(f"{what}_exit_code", f"isla {what} exited {code} ({out.strip()[:280]!r}), expected {sorted(exp)} for input {contents[0][:100]!r}; constraints {self.plan['formula_texts']}", op_index)
         else:
             self.bump("check_agreed_%d" % code)
 
@@ -720,7 +720,7 @@ class Cli:
         code, out, err, exc = self.run(argv, op_index)
         if code is None or not self.spec_intact():
             return
-        self.judge_check(code, out, s, path, op_index, "parse")
+        self.judge_check(code, (out[:60] if code == 0 else out) + " | stderr: " + err[-200:], s, path, op_index, "parse")
         if code != 0:
             return
         text = None
